@@ -238,3 +238,30 @@ func firstStringArgIs(c *ssa.CallCommon, lit string) bool {
 	}
 	return false
 }
+
+func isParam(fn *ssa.Function, name string) bool {
+	for _, p := range fn.Params {
+		if p.Name() == name {
+			return true
+		}
+	}
+	return false
+}
+
+// phiByName: the phi node named after a variable in block b or in its nearest dominator that has one
+func (fr *Frame) phiByName(name string, b *ssa.BasicBlock) (CV, bool) {
+	for ; b != nil; b = b.Idom() {
+		for _, in := range b.Instrs {
+			p, ok := in.(*ssa.Phi)
+			if !ok {
+				break
+			}
+			if p.Comment == name {
+				if _, ok := fr.env[p]; ok {
+					return CV{fr.val(p), p.Type()}, true
+				}
+			}
+		}
+	}
+	return CV{}, false
+}
